@@ -1087,6 +1087,30 @@ pub fn c19(rec: &mut Rec, lm: &Landmarks, rng: &mut Rng, thorough: bool) {
             }
         }
     }
+    // calendar landmarks (century years leap and not, the days around 28/29 February, the ends of the year) rendered
+    // with formats that mix the day of year, the weekday and the month with the calendar fields
+    let d1900 = days_from_civil(1900, 1, 1);
+    for y in [1i64, 4, 100, 400, 1600, 1700, 1800, 1900, 2000, 2023, 2024, 2100, 2400, 9900, 9999] {
+        for (mo, d) in [(1i64, 1i64), (2, 28), (2, 29), (3, 1), (6, 30), (7, 1), (12, 30), (12, 31)] {
+            if mo == 2 && d == 29 && !is_leap(y as i32) {
+                continue;
+            }
+            for (k, f) in ["%Y-%j", "%Y-%m-%d %j", "%j %H:%M", "%A %j %Y", "%a, %d %b %Y %j", "%B %d %j", "%Y-%m-%dT%H:%M:%S.%f %T %j %A"].iter().enumerate() {
+                let ts = SCALES[(y as usize + mo as usize + k) % 9];
+                let (gday, gtod): (i64, i128) = match ts {
+                    TimeScale::GPST | TimeScale::QZSST => (29_224, 0),
+                    TimeScale::GST => (36_392, 0),
+                    TimeScale::BDT => (38_716, 0),
+                    TimeScale::ET | TimeScale::TDB => (36_524, 43_200 * NS_S as i128),
+                    _ => (0, 0),
+                };
+                let tod = [0i128, NS_DAY as i128 - 1, 43_200 * NS_S as i128 + 5][k % 3];
+                let v = ((days_from_civil(y, mo, d) - d1900 - gday) as i128) * NS_DAY as i128 + tod - gtod;
+                m.eload_dur(ts, ns_dur(v));
+                render_ev(&mut m, f, 0, Duration::ZERO, ts);
+            }
+        }
+    }
     // ... and with the offset token: rendered with a time zone (either sign, up to 23:59), parsed back to the epoch
     let zoned: Vec<String> = {
         let mut v = Vec::new();
